@@ -7,9 +7,9 @@
 //! callback is registered).
 use std::cell::Cell;
 use std::sync::atomic::Ordering::Relaxed;
-use std::sync::atomic::{AtomicU64, AtomicUsize};
+use std::sync::atomic::{AtomicPtr, AtomicU64};
 
-static CALLBACK: AtomicUsize = AtomicUsize::new(0);
+static CALLBACK: AtomicPtr<()> = AtomicPtr::new(std::ptr::null_mut());
 
 /// Milliseconds slept by `FutWait::fut_wait` before reporting NotReady
 /// (the unguarded crate always sleeps 100 ms).
@@ -17,14 +17,17 @@ pub static FUT_PARK_SLEEP_MS: AtomicU64 = AtomicU64::new(100);
 
 /// Registers (or clears) the harness callback invoked at every hook site
 pub fn set_callback(f: Option<fn(u32)>) {
-    CALLBACK.store(f.map(|f| f as usize).unwrap_or(0), Relaxed);
+    CALLBACK.store(
+        f.map(|f| f as *mut ()).unwrap_or(std::ptr::null_mut()),
+        Relaxed,
+    );
 }
 
 #[inline(always)]
 pub fn point(site: u32) {
     let raw = CALLBACK.load(Relaxed);
-    if raw != 0 {
-        let f: fn(u32) = unsafe { std::mem::transmute::<usize, fn(u32)>(raw) };
+    if !raw.is_null() {
+        let f: fn(u32) = unsafe { std::mem::transmute::<*mut (), fn(u32)>(raw) };
         f(site);
     }
 }
